@@ -37,7 +37,7 @@ ASSUMPTIONS = ['numpy evaluation with environment passing is the reference seman
                'one generic valuation per case (three for factor); values are fixed irrational-looking numbers, no random sampling',
                'at evaluation time a value-preserving int->float conversion of a supplied value is tolerated; only lossy conversions must be refused',
                '.arguments of a result must contain every argument the value depends on and nothing outside the syntactic table of the model']
-BUDGET_S = {'quick': 400, 'thorough': 3000}
+BUDGET_S = {'quick': 1800, 'thorough': 7200}
 
 A = T.A
 N = lambda x: ['name', x]
@@ -102,7 +102,8 @@ def chain_terms(f, F):
         # the replaced expression is a subterm, the removed argument reappears next to it
         e1 = [[k, N(k1)]]
         e2 = [[k, N(k2)], [k1, N(k)]]
-        out.append(('subterm', [e1, e2], lambda s1, s2, e1=e1, e2=e2, k=k: ['replace', ['add', ['replace', f, e1, s1], A(k)], e2, s2]))
+        if T.model(f).shape in ((), (2,)):
+            out.append(('subterm', [e1, e2], lambda s1, s2, e1=e1, e2=e2, k=k: ['replace', ['add', ['replace', f, e1, s1], A(k)], e2, s2]))
         # the value is itself a replaced expression
         e1 = [[k1, N(k2)]]
         out.append(('value-replaced', [e1, None], lambda s1, s2, e1=e1, k=k, k1=k1: ['replace', f, [[k, ['replace', ['add', A(k1), ['sq', A(k)]], e1, s1]]], s2]))
@@ -164,12 +165,15 @@ def variants_chain(builder):
     'the chain in every pair of spellings (same spelling at both levels, or one level in a fixed fallback spelling), deduplicated'
     out = []
     seen = set()
-    pairs = [(sp, sp) for sp in CHAIN_SPELLINGS] + [(sp, ['list-pairs', 'A', 'A']) for sp in CHAIN_SPELLINGS] + [(['dict', 's', 'A'], sp) for sp in CHAIN_SPELLINGS]
-    for s1, s2 in pairs:
-        t = builder(s1, s2)
-        try:
-            sig = T.term_signature(t)
-        except T.Infeasible:
+    for sp in CHAIN_SPELLINGS:
+        for s1, s2 in ((sp, sp), (sp, ['list-pairs', 'A', 'A']), (['dict', 's', 'A'], sp)):
+            t = builder(s1, s2)
+            try:
+                sig = T.term_signature(t)
+                break
+            except T.Infeasible:
+                continue
+        else:
             continue
         if sig in seen:
             continue
@@ -248,7 +252,7 @@ def shards(tier, seed):
         add('replace', 'spat2full', 'plain', 60, reduced=True)
         add('chain', 'spat2', 'plain', 20)
         add('diff', 'spat2', 'plain', 20)
-        add('factor', 'spat2', 'plain', 20)
+        add('factor', 'spat2', 'plain', 20, reduced=True)
     return out
 
 
@@ -540,6 +544,8 @@ def _run_evalvalue(res, f, F, scheme, manipulated=True):
             if J.close(numpy.asarray(T.ref(g, e2)), R0, 1e-7):
                 continue
             for value, vdtype in eval_values(shape, dtype):
+                if g is not f and f[0] in ('int', 'bind') and vdtype.startswith('py'):
+                    continue
                 res.count('evaluations')
                 res.count('cases')
                 finding, status = J.judge_evalvalue(g, name, value, vdtype, scheme)
@@ -556,6 +562,12 @@ def _run_intarg(res, f, F, scheme):
     if 'u' in F:
         maps.append(('two', [['n', N('m')], ['u', N('z')]]))
         maps.append(('cross', [['u', ['mul', A('n'), A('u')]], ['n', ['k', -3, 'int']]]))
+    if 'p' in F and 'n' in F:
+        # the new name exists already with another dtype (same shape): a conflict, to be refused
+        maps.append(('conflict-dtype', [['p', N('n')]]))
+        maps.append(('conflict-dtype', [['p', ['mul', ['ax', 'n', [], 'float'], A('q')]]]))
+        for sp in T.spellings_for([['p', N('n')]]):
+            _judge(res, [['lin', f, [['p', N('n')]], sp]], scheme, 'int-conflict-dtype')
     for label, entries in maps:
         _judge(res, variants_replace(f, entries), scheme, 'int-' + label)
         _judge(res, variants_replace(f, entries), 'nest', 'int-' + label)
